@@ -237,3 +237,15 @@ def contains(P: Project, fi: FunctionInfo, expected_src: str) -> Tuple[bool, str
     if b is not None:
         return True, ""
     return False, "no longer present (in normal form): `" + _first_unmatched(pats, acts) + "`"
+
+
+def contains_any(P: Project, fi: FunctionInfo, alternatives) -> Tuple[bool, str]:
+    """``contains`` for several equivalent spellings of the skeleton (e.g. a library call with a positional or a
+    keyword argument); holds if any of them matches."""
+    why = ""
+    for src in alternatives:
+        ok, w = contains(P, fi, src)
+        if ok:
+            return True, ""
+        why = why or w
+    return False, why
